@@ -3,6 +3,7 @@ from .. import anchors as A
 from .. import fanout as F
 from .. import shared as S
 from .. import placement as P
+from .. import positives as POS
 from ..facts import Callee
 from ..shapes import traversals, root, Src, SELF
 from ..cfg import INF
@@ -110,3 +111,4 @@ def run(ctx, report):
         report.guard("C04.LOCKSTEP", S.lockstep, ctx, report, "C04.LOCKSTEP", facts, config)
         report.guard("C04.BUILD", S.build_wiring, ctx, report, "C04.BUILD", facts, config)
         report.guard("C04.CAP", P.accept, ctx, report, "C04.CAP", facts, config, ("cap",))
+    POS.check(ctx, report, "C04.FANOUT", ["partial_traversals"])
